@@ -56,7 +56,7 @@ impl Prop for C15 {
         }
     }
     fn required_probes(&self, tier: Tier) -> Vec<&'static str> {
-        let mut v = vec!["gap_sum_over_u32", "non_monotonic_timestamps", "tie_for_biggest_value", "tie_for_biggest_size", "coinbase_above_subsidy", "coinbase_below_subsidy", "height_around_halving", "sub_range"];
+        let mut v = vec!["gap_sum_over_u32", "non_monotonic_timestamps", "tie_for_biggest_value", "tie_for_biggest_size", "coinbase_above_subsidy", "coinbase_below_subsidy", "height_around_halving", "sub_range", "coinbase_shaped_tx_not_first"];
         if tier == Tier::Thorough {
             v.push("block_size_sum_over_u32");
         }
@@ -122,6 +122,7 @@ impl Prop for C15 {
                 inputs: vec![coinbase_input(hh, rng)],
                 outputs: outs,
                 locktime: 0,
+                cs_width: 0,
             });
             for _ in 0..rng.usize(0, 4) {
                 let n_in = rng.usize(1, 3);
@@ -147,7 +148,26 @@ impl Prop for C15 {
                         })
                         .collect(),
                     locktime: 0,
+                    cs_width: 0,
                 });
+            }
+            // a coinbase-shaped transaction (null prevout) at a later position also counts "per coinbase"
+            if rng.chance(1, 8) {
+                let at = rng.usize(1, txs.len());
+                txs.insert(
+                    at,
+                    TxDesc {
+                        version: 1,
+                        segwit: false,
+                        inputs: vec![coinbase_input(hh + 7_000_000, rng)],
+                        outputs: vec![OutDesc {
+                            value: subsidy + rng.range(1, 90_000_000),
+                            script: Bytes(p2pkh(&rng.bytes(20))),
+                        }],
+                        locktime: 0,
+                        cs_width: 0,
+                    },
+                );
             }
             // timestamps: mostly increasing, sometimes going back, sometimes huge gaps
             ts = match rng.below(9) {
@@ -229,6 +249,9 @@ impl Prop for C15 {
                 for (ti, t) in scn.chain[bi].txs.iter().enumerate() {
                     vals.push(t.outputs.iter().map(|o| o.value as u128).sum());
                     sizes.push(m.built.active[bi].txs[ti].stripped_len as u64);
+                    if ti > 0 && t.inputs.len() == 1 && t.inputs[0].prev_index == 0xffff_ffff && t.inputs[0].prev_txid.0.iter().all(|z| *z == 0) {
+                        st.probe("coinbase_shaped_tx_not_first");
+                    }
                     if ti == 0 && !t.outputs.is_empty() {
                         if t.outputs[0].value > subsidy {
                             st.probe("coinbase_above_subsidy");
